@@ -1,4 +1,6 @@
-/* C06 harnesses: parallel_sort's pre-sortedness probe, dispatch and median selection (sliced from parallel_sort.h) */
+/* C06 harnesses.  Every function body comes from an .inc file that spec.py slices out of the current tree on each run; this file holds types, callee stubs, ghost state, contracts and harnesses.
+   Sections: SORT (pre-sortedness probe, dispatch, median_of_three) . SPLIT (quick_sort_range::split_range, loop contracts) . DISPATCH (all public reduce overloads) . FOLD (fold_tree, RG + loop contract)
+             REDUCE / DETRED (start_reduce, start_deterministic_reduce, the two tree nodes) . LAMBDA (lambda_reduce_body) . SCAN (final_sum, sum_node, finish_scan, start_scan) . LSCAN (lambda_scan_body) */
 #include "verif.h"
 #include <stdlib.h>
 #ifdef SORT
@@ -545,21 +547,27 @@ void h_lambda_ctors(void) {
 #ifdef SPLIT
 /* parallel_sort.h quick_sort_range: pseudo_median_of_nine + split_range + the splitting constructor, for ranges of ANY size (loop contracts on the three partition loops).
    Universal facts are stated for one arbitrary position g_q (ghost index); "the result is a permutation" is stated for one arbitrary element that is tracked through
-   every exchange (g_pos: where the element that started at IN_k0 is now) - every write to the array goes through ITER_SWAP. Comparator: std::less<int>. */
-typedef int *RandomAccessIterator;
+   every exchange (g_pos: where the element that started at IN_k0 is now) - every write to the array goes through ITER_SWAP.
+   Instantiation: RandomAccessIterator := ELEM*, Compare := std::less<ELEM>; ELEM is signed char in the job (int proves too, 8 min: the SAT cost is in the array equalities). */
+#ifndef ELEM
+#define ELEM int
+#endif
+typedef ELEM *RandomAccessIterator;
 struct quick_sort_range { const void *comp; size_t size; RandomAccessIterator begin; };
 #define INIT_comp_1(s, e) ((s)->comp = (e))
 #define INIT_size_1(s, e) ((s)->size = (e))
 #define INIT_begin_1(s, e) ((s)->begin = (e))
+#ifndef NMAX
 #define NMAX ((size_t)1 << 12)
-static int *A; static size_t g_n, g_q, g_pos; static int g_v0;
-static bool COMP_AT(int *x, int *y) {
+#endif
+static ELEM *A; static size_t g_n, g_q, g_pos; static ELEM g_v0;
+static bool COMP_AT(ELEM *x, ELEM *y) {
     OBLIGATION(__CPROVER_same_object(x, A) && __CPROVER_same_object(y, A) && x >= A && x < A + g_n && y >= A && y < A + g_n, "C06.split: every compared position lies inside the range being split");
     return *x < *y;
 }
-static void ITER_SWAP(int *x, int *y) {
+static void ITER_SWAP(ELEM *x, ELEM *y) {
     OBLIGATION(__CPROVER_same_object(x, A) && __CPROVER_same_object(y, A) && x >= A && x < A + g_n && y >= A && y < A + g_n, "C06.split: elements are exchanged only inside the range being split");
-    int t = *x; *x = *y; *y = t;
+    ELEM t = *x; *x = *y; *y = t;
     if (x == A + g_pos) g_pos = (size_t)(y - A); else if (y == A + g_pos) g_pos = (size_t)(x - A);
 }
 #define LE_KEY(k) (!(A[0] < A[k]))        /* not greater than the pivot (which sits at the front while the loops run) */
@@ -568,14 +576,14 @@ static void ITER_SWAP(int *x, int *y) {
 #define LOOP_split_1 __CPROVER_assigns(i, j, g_pos, __CPROVER_object_whole(A)) \
     __CPROVER_loop_invariant(i < j && COMMON_INV && (!(j <= g_q && g_q < g_n) || GE_KEY(g_q))) __CPROVER_decreases(j - i)
 #define LOOP_split_2 __CPROVER_assigns(j) \
-    __CPROVER_loop_invariant(i < j && COMMON_INV && (!(j <= g_q && g_q < g_n) || GE_KEY(g_q))) __CPROVER_decreases(j)
+    __CPROVER_loop_invariant(i < j && j <= __CPROVER_loop_entry(j) && COMMON_INV && (!(j <= g_q && g_q < g_n) || GE_KEY(g_q))) __CPROVER_decreases(j)
 #define LOOP_split_3 __CPROVER_assigns(i) \
-    __CPROVER_loop_invariant(i <= j && COMMON_INV && (!(j < g_q && g_q < g_n) || GE_KEY(g_q)) && LE_KEY(j)) __CPROVER_decreases(j - i)
+    __CPROVER_loop_invariant(i <= j && i >= __CPROVER_loop_entry(i) && COMMON_INV && (!(j < g_q && g_q < g_n) || GE_KEY(g_q)) && LE_KEY(j)) __CPROVER_decreases(j - i)
 #include "split_range.inc"
 size_t IN_n, IN_q, IN_k0;
 void h_split(void) {
     g_n = IN_n = nondet_size_t(); __CPROVER_assume(g_n >= 1 && g_n <= NMAX);
-    A = malloc(g_n * sizeof(int)); __CPROVER_assume(A != NULL);
+    A = malloc(g_n * sizeof(ELEM)); __CPROVER_assume(A != NULL);
     g_q = IN_q = nondet_size_t(); __CPROVER_assume(g_q < g_n);
     size_t k0 = IN_k0 = nondet_size_t(); __CPROVER_assume(k0 < g_n); g_pos = k0; g_v0 = A[k0];
     int cmp; struct quick_sort_range left, right; left.comp = &cmp; left.size = g_n; left.begin = A;
@@ -589,3 +597,372 @@ void h_split(void) {
     VACUITY_END();
 }
 #endif /* SPLIT */
+
+#ifdef VACUITY
+#define VACUITY_CASE(c, m) do { if (c) __CPROVER_assert(0, "VACUITY: case reachable: " m); } while (0)
+#else
+#define VACUITY_CASE(c, m) ((void)0)
+#endif
+#ifdef SCAN
+/* parallel_scan.h: final_sum, sum_node, finish_scan, start_scan.  Ghost model of a user Body: the contiguous block [lo,hi) of elements whose values it has accumulated, in order
+   (lo == hi: still the identity).  The user's operations are stubs that check and update this block:
+     pre-scan of [b,e)   needs the block to end at b (or be empty)                    -> block grows to e
+     FINAL scan of [b,e) needs the block to be exactly [0,b) - the correct incoming prefix -> block becomes [0,e); one ghost element g_x counts its final passes
+     this.reverse_join(a) needs a's block to end where this one starts (a lies to the left)  -> this block starts at a.lo
+   The tree invariants between the two passes are the rely of each job and are stated where the job builds its pre-state. */
+typedef struct Range { size_t b, e; } Range;
+typedef struct Body { size_t lo, hi; bool init; } Body;   /* init: the block starts with the caller's INITIAL body state (then lo == 0) */
+typedef struct small_object_allocator { void *pool; } small_object_allocator;
+typedef struct wait_context { int refs; } wait_context;
+typedef struct Partition { int d; } Partition; typedef struct Partitioner { int d; } Partitioner;
+typedef struct task_group_context { int d; } task_group_context;
+typedef struct execution_data { task_group_context *context; } execution_data;
+typedef struct task task;
+struct sum_node; struct finish_scan;
+struct final_sum { Body m_body; Range m_range; Body *m_stuff_last; wait_context *m_wait_context; struct sum_node *m_parent; small_object_allocator m_allocator; };
+struct sum_node { struct final_sum *m_incoming, *m_body; Body *m_stuff_last; struct final_sum *m_left_sum; struct sum_node *m_left, *m_right; bool m_left_is_final; Range m_range; wait_context *m_wait_context;
+                  struct sum_node *m_parent; small_object_allocator m_allocator; unsigned ref_count; };
+struct finish_scan { struct final_sum **m_sum_slot; struct sum_node **m_return_slot; small_object_allocator m_allocator; struct final_sum *m_right_zombie; struct sum_node *m_result; unsigned ref_count;
+                     struct finish_scan *m_parent; wait_context *m_wait_context; };
+struct start_scan { struct sum_node **m_return_slot; Range m_range; struct final_sum *m_body; Partition m_partition; struct final_sum **m_sum_slot; bool m_is_final, m_is_right_child;
+                    struct finish_scan *m_parent; small_object_allocator m_allocator; wait_context *m_wait_context; };
+enum { pre_scan_tag = 1, final_scan_tag = 2 };
+#define SPLIT_TAG 0
+#define ALLOCATOR_INIT(a) ((a).pool = NULL)
+#define REBIND(w, lv) ((w) = &(lv))                                   /* std::reference_wrapper assignment: refer to another object */
+/* constructor initialisers */
+#define INIT_m_body_2(s, b, tag) Body_split_ctor(&(s)->m_body, &(b))                 /* final_sum::m_body(b, split()) */
+#define INIT_m_body_1(s, b) ((s)->m_body = &(b))                                      /* start_scan::m_body: reference_wrapper<final_sum> */
+#define INIT_m_wait_context_1(s, w) ((s)->m_wait_context = &(w))
+#define INIT_m_parent_1(s, e) ((s)->m_parent = (e))
+#define INIT_m_allocator_1(s, a) ((s)->m_allocator = (a))
+#define INIT_m_stuff_last_1(s, e) ((s)->m_stuff_last = (e))
+#define INIT_m_left_sum_1(s, e) ((s)->m_left_sum = (e))
+#define INIT_m_left_1(s, e) ((s)->m_left = (e))
+#define INIT_m_right_1(s, e) ((s)->m_right = (e))
+#define INIT_m_left_is_final_1(s, e) ((s)->m_left_is_final = (e))
+#define INIT_m_range_1(s, r) ((s)->m_range = (r))                                     /* Range copy */
+#define INIT_m_range_2(s, r, tag) Range_split_ctor(&(s)->m_range, &(r))               /* Range(r, split()) */
+#define INIT_ref_count_1(s, e) ((s)->ref_count = (e))
+#define INIT_m_sum_slot_1(s, e) ((s)->m_sum_slot = (e))
+#define INIT_m_return_slot_1(s, lv) ((s)->m_return_slot = &(lv))                      /* reference (wrapper) bound to lv */
+#define INIT_m_right_zombie_1(s, e) ((s)->m_right_zombie = (e))
+#define INIT_m_result_1(s, lv) ((s)->m_result = &(lv))
+#define INIT_m_partition_1(s, p) ((s)->m_partition.d = nondet_int())
+#define INIT_m_partition_2(s, p, tag) ((s)->m_partition.d = nondet_int(), (p).d = nondet_int())
+#define INIT_m_is_final_1(s, e) ((s)->m_is_final = (e))
+#define INIT_m_is_right_child_1(s, e) ((s)->m_is_right_child = (e))
+/* ghost */
+size_t g_x, g_mid; int g_final_x, g_finals, g_prescans, g_rjoins, g_rsplits, g_bsplits, g_assigns, g_spawns, g_deleted, g_wait_released, g_node_destroyed, g_zombie_destroyed; void *g_spawned; Body *g_scan_body; Range g_scan_range; Body *g_bsplit_src;
+static void Body_split_ctor(Body *dst, Body *src) { g_bsplits++; g_bsplit_src = src; dst->lo = dst->hi = 0; dst->init = false; }
+static void body_scan(Body *b, const Range *r, int tag) {
+    OBLIGATION(r->b < r->e, "C06.scan: a body is applied to a non-empty subrange");
+    g_scan_body = b; g_scan_range = *r;
+    if (tag == final_scan_tag) {
+        OBLIGATION(b->lo == 0 && b->hi == r->b && b->init, "C06.scan: the FINAL pass over a subrange runs with the correct incoming prefix: the body has accumulated exactly the caller's initial state and the elements [0, begin) - nothing missing, nothing twice");
+        g_finals++; if (r->b <= g_x && g_x < r->e) { g_final_x++; OBLIGATION(g_final_x == 1, "C06.scan: an element gets the final pass at most once"); }
+        b->hi = r->e;
+    } else {
+        OBLIGATION(b->lo == b->hi || b->hi == r->b, "C06.scan: a pre-scan extends the block the body has accumulated contiguously to the right");
+        g_prescans++; if (b->lo == b->hi) b->lo = r->b; b->hi = r->e;
+    }
+}
+#define BODY_SCAN(body, range, tag) body_scan(&(body), &(range), (tag))
+static void Body_reverse_join(Body *self, Body *a) {       /* self.reverse_join(a): a was split off earlier, it lies to the LEFT */
+    g_rjoins++;
+    OBLIGATION(a->lo == a->hi || self->lo == self->hi || a->hi == self->lo, "C06.scan: reverse_join merges a body that ends exactly where this one starts (left operand first: operands are never reordered)");
+    OBLIGATION(!self->init, "C06.scan: nothing is ever joined in front of the caller's initial state");
+    if (a->lo != a->hi) { if (self->lo == self->hi) self->hi = a->hi; self->lo = a->lo; }
+    if (a->init) self->init = true;
+}
+static void Body_assign(Body *dst, Body *src) { g_assigns++; *dst = *src; }
+static Range g_tmp_range;
+static void Range_split_ctor(Range *dst, Range *src) { g_rsplits++; __CPROVER_assume(src->b < g_mid && g_mid < src->e); dst->b = g_mid; dst->e = src->e; src->e = g_mid; }   /* Range(r, split()): *dst = right part, r keeps the left part; the cut is a function of r alone */
+static Range *range_split_temp(Range *r) { Range_split_ctor(&g_tmp_range, r); return &g_tmp_range; }
+#define RANGE_SPLIT_TEMP(r) range_split_temp(&(r))
+static void Range_copy_ctor(Range *dst, const Range *src) { *dst = *src; }
+static bool Range_is_divisible(const Range *r) { return r->e - r->b >= 2 && nondet_bool(); }
+static bool Partition_should_execute_range(Partition *p, execution_data *ed) { return nondet_bool(); }
+bool g_stolen; static bool STUB_is_stolen(execution_data *ed) { return g_stolen; }
+#define SPAWN(t, c) do { g_spawns++; g_spawned = (void *)(t); spawn_hook(); } while (0)
+#define WAIT_RELEASE(w) do { g_wait_released++; } while (0)
+void *g_self; 
+#define DELETE_OBJECT(a, obj, ed) do { g_deleted++; OBLIGATION((void *)(obj) == g_self, "C06.scan: a finished task frees itself"); (obj)->m_parent = NULL; (obj)->m_wait_context = NULL; } while (0)
+#define SUM_NODE_SELF_DESTROY(n, ed) do { g_node_destroyed++; } while (0)
+#define FINAL_SUM_SELF_DESTROY(f, ed) do { g_zombie_destroyed++; } while (0)
+/* ---- rely/guarantee on the parent's ref_count (number of its children that have not finished; this task is counted while g_mine) ---- */
+unsigned *g_rc; long g_others; bool g_mine, g_last;
+static void interfere(void) { if (g_mine) { long o = nondet_long(); __CPROVER_assume(o >= 0 && o <= g_others); g_others = o; *g_rc = (unsigned)(o + 1); } }
+#define ATOMIC_FETCH_SUB_AT(site, x, v) ({ __CPROVER_assert(&(x) == g_rc && g_mine, "C06.scan: a finishing task gives up exactly its own reference on its parent, once"); interfere(); unsigned o_ = (x); (x) -= (v); g_mine = false; g_last = (g_others == 0); \
+    __CPROVER_assert((long)*g_rc == g_others, "guarantee: ref_count equals the number of unfinished children, at " #site); o_; })
+#define ATOMIC_FETCH_ADD(x, v) ((x) += (v))
+#define ATOMIC_STORE_AT(site, x, v) ((x) = (v))
+#define ATOMIC_LOAD_AT(site, x) (x)
+static void spawn_hook(void);
+void final_sum_ctor_split(struct final_sum *self, struct final_sum *sum, small_object_allocator *alloc);
+void sum_node_ctor(struct sum_node *self, const Range range, bool left_is_final_, struct sum_node *parent, wait_context *w_o, small_object_allocator *alloc);
+void finish_scan_ctor(struct finish_scan *self, struct sum_node **return_slot, struct final_sum **sum, struct sum_node *result_, struct finish_scan *parent, wait_context *w_o, small_object_allocator *alloc);
+void start_scan_ctor_split(struct start_scan *self, struct sum_node **return_slot, struct start_scan *parent, small_object_allocator *alloc);
+static struct final_sum g_new_final; static struct sum_node g_new_node; static struct finish_scan g_new_finish; static struct start_scan g_new_start; int g_allocs_final, g_allocs_node, g_allocs_finish, g_allocs_start;
+#define NEW_final_sum_type_2(a, sum, a2) ({ g_allocs_final++; final_sum_ctor_split(&g_new_final, &(sum), &(a2)); &g_new_final; })
+#define NEW_sum_node_type_5(a, range, lif, parent, w, a2) ({ g_allocs_node++; sum_node_ctor(&g_new_node, (range), (lif), (parent), &(w), &(a2)); &g_new_node; })
+#define NEW_finish_pass1_type_6(a, rs, ss, res, parent, w, a2) ({ g_allocs_finish++; finish_scan_ctor(&g_new_finish, &(rs), (ss), &(res), (parent), &(w), &(a2)); &g_new_finish; })
+#define NEW_start_scan_3(a, rs, par, a2) ({ g_allocs_start++; start_scan_ctor_split(&g_new_start, &(rs), &(par), &(a2)); &g_new_start; })
+/* start_scan::run */
+#define PARALLEL_SCAN 9
+#define CONTEXT_CTOR(c, traits_) ((c).d = (traits_))
+#define WAIT_CTOR(w, n) ((w).refs = (n))
+#define WAIT_RESERVE(w) do { (w).refs++; g_reserved++; } while (0)
+static bool range_empty_(const Range *r) { return r->b >= r->e; }
+#define Range_empty(r) range_empty_(&(r))
+void final_sum_ctor_body(struct final_sum *self, Body *body, wait_context *w_o, small_object_allocator *alloc);
+void start_scan_ctor_root(struct start_scan *self, struct sum_node **return_slot, const Range *range, struct final_sum *body, const Partitioner *partitioner, wait_context *w_o, small_object_allocator *alloc);
+static struct final_sum g_temp_body; static struct sum_node g_root_node; int g_reserved, g_waits, g_temp_deleted; Range g_run_range; static Body g_user_body; bool g_tree_kept;
+#define NEW_final_sum_type_3(a, body, w, a2) ({ g_allocs_final++; final_sum_ctor_body(&g_temp_body, &(body), &(w), &(a2)); &g_temp_body; })
+#define NEW_start_pass1_type_6(a, rs, range, body, part, w, a2) ({ g_allocs_start++; start_scan_ctor_root(&g_new_start, &(rs), &(range), &(body), &(part), &(w), &(a2)); &g_new_start; })
+#define DELETE_TEMP_BODY(a, p) do { g_temp_deleted++; OBLIGATION((p) == &g_temp_body, "C06.scan.run: the temporary body is freed"); } while (0)
+static void run_wait(void *t, void *c1, wait_context *w, void *c2);
+#define EXECUTE_AND_WAIT(t, c1, w, c2) run_wait((void *)&(t), (void *)&(c1), &(w), (void *)&(c2))
+#include "scan.inc"
+static wait_context g_wctx; static task_group_context g_tctx;
+/* the two execute_and_wait calls of run(): the first runs pass 1 (jobs scan.start_scan.*, scan.finish_scan.*: leaves a tree or nothing), the second pass 2 (jobs scan.sum_node.*, scan.final_sum.*) */
+static void run_wait(void *t, void *c1, wait_context *w, void *c2) {
+    g_waits++;
+    OBLIGATION(c1 == c2 && w->refs == 1, "C06.scan.run: each pass runs and is waited for in one context, with exactly one pending reference on the wait object");
+    if (g_waits == 1) {
+        struct start_scan *st = t;
+        OBLIGATION(st == &g_new_start && st->m_is_final && !st->m_is_right_child && st->m_parent == NULL && st->m_sum_slot == NULL && st->m_body == &g_temp_body && st->m_range.b == g_run_range.b && st->m_range.e == g_run_range.e && *st->m_return_slot == NULL,
+                   "C06.scan.run: pass 1 starts with ONE final root task over the caller's whole range, working on the temporary body, with an empty slot for the tree");
+        OBLIGATION(g_temp_body.m_body.lo == g_temp_body.m_body.hi && g_temp_body.m_body.init && g_bsplits == 1, "C06.scan.run: the temporary body is split off the caller's body and then takes over the caller's INITIAL state (the prefix of element 0)");
+        /* outcome of pass 1: either the whole range got its final pass in one sweep by the temporary body, or a tree is left and the temporary body holds some prefix */
+        g_tree_kept = nondet_bool(); g_temp_body.m_body.lo = 0; g_temp_body.m_body.init = true;
+        if (g_tree_kept) { *st->m_return_slot = &g_root_node; g_temp_body.m_body.hi = nondet_size_t(); } else g_temp_body.m_body.hi = g_run_range.e;
+        w->refs = 0;
+    } else {
+        struct sum_node *n = t;
+        OBLIGATION(g_waits == 2 && g_tree_kept && n == &g_root_node && n->m_body == &g_temp_body && n->m_incoming == NULL && n->m_stuff_last == &g_user_body,
+                   "C06.scan.run: pass 2 runs the root node prepared with the temporary body, no incoming prefix (it is on the left edge) and the caller's body as the place for the total of the last subrange");
+        w->refs = 0;
+    }
+}
+static void reset(void) { g_final_x = g_finals = g_prescans = g_rjoins = g_rsplits = g_bsplits = g_assigns = g_spawns = g_deleted = g_wait_released = g_node_destroyed = g_zombie_destroyed = 0; g_spawned = NULL; g_scan_body = NULL;
+    g_allocs_final = g_allocs_node = g_allocs_finish = g_allocs_start = 0; g_x = nondet_size_t(); g_mid = nondet_size_t(); g_mine = g_last = false; g_rc = NULL; g_others = 0; g_stolen = nondet_bool(); }
+#define NMAXS ((size_t)1 << 40)
+static void mk_range(Range *r, size_t minlen) { r->b = nondet_size_t(); r->e = nondet_size_t(); __CPROVER_assume(r->b < r->e && r->e <= NMAXS && r->e - r->b >= minlen); }
+static void mk_rc(unsigned *rc) { g_rc = rc; g_mine = true; g_others = nondet_long(); __CPROVER_assume(g_others >= 0 && g_others < 1000); *rc = (unsigned)(g_others + 1); }
+/* what every release_parent/finalize pair must do; `ret` is what the task's execute/cancel returned, `parent` the parent it had */
+#define FINALIZE_POST(ret, parent) do { \
+    if ((parent) != NULL) { OBLIGATION(!g_mine, "C06.scan: the finished task has given up its reference on the parent"); \
+        OBLIGATION((void *)(ret) == (g_last ? (void *)(parent) : NULL), "C06.scan: the parent (the continuation that combines the children) is handed on for execution by exactly the child that finishes LAST - so it runs once, after all its children"); \
+        OBLIGATION(g_wait_released == 0, "C06.scan: only a task without parent releases the wait"); } \
+    else OBLIGATION((ret) == NULL && g_wait_released == 1, "C06.scan: a task without parent releases the caller's wait exactly once"); \
+    OBLIGATION(g_deleted == 1, "C06.scan: the finished task is freed exactly once"); } while (0)
+int g_mode_spawn; static void spawn_hook_start(void);
+static void spawn_hook(void) { if (g_mode_spawn == 1) spawn_hook_start(); }
+
+/* ---------------- final_sum::execute / cancel: the pass-2 leaf ---------------- */
+static struct final_sum F; static struct sum_node PN; static Body UB;
+static void mk_leaf(void) {
+    reset(); mk_range(&F.m_range, 1); F.m_body.lo = 0; F.m_body.hi = F.m_range.b; F.m_body.init = true;          /* rely (established by sum_node::execute, job scan.sum_node.execute): the leaf's body holds exactly the prefix [0, begin) */
+    F.m_stuff_last = nondet_bool() ? &UB : NULL; UB.lo = nondet_size_t(); UB.hi = nondet_size_t(); UB.init = nondet_bool(); F.m_wait_context = &g_wctx; g_self = &F;
+    if (nondet_bool()) { F.m_parent = &PN; mk_rc(&PN.ref_count); } else F.m_parent = NULL;
+}
+void h_scan_final_execute(void) {
+    mk_leaf(); struct sum_node *parent = F.m_parent; Range r0 = F.m_range; bool last = F.m_stuff_last != NULL; execution_data ed; ed.context = &g_tctx;
+    task *ret = final_sum_execute(&F, &ed);
+    OBLIGATION(g_finals == 1 && g_prescans == 0 && g_scan_body == &F.m_body && g_scan_range.b == r0.b && g_scan_range.e == r0.e, "C06.scan: a pass-2 leaf runs the final pass exactly once, over exactly its own subrange, with its own body");
+    OBLIGATION(F.m_body.lo == 0 && F.m_body.hi == r0.e && F.m_body.init, "C06.scan: afterwards the leaf's body holds the prefix up to the end of its subrange");
+    if (last) OBLIGATION(g_assigns == 1 && UB.lo == 0 && UB.hi == r0.e && UB.init, "C06.scan: the leaf of the last subrange hands the complete reduction to the caller's body (after its final pass)");
+    else OBLIGATION(g_assigns == 0, "C06.scan: no other leaf writes to the caller's body");
+    FINALIZE_POST(ret, parent);
+    VACUITY_END();
+}
+void h_scan_final_cancel(void) {
+    mk_leaf(); struct sum_node *parent = F.m_parent; execution_data ed; ed.context = &g_tctx;
+    task *ret = final_sum_cancel(&F, &ed);
+    OBLIGATION(g_finals == 0 && g_prescans == 0 && g_assigns == 0, "C06.scan: a cancelled leaf touches no body");
+    FINALIZE_POST(ret, parent);
+    VACUITY_END();
+}
+
+/* ---------------- sum_node::execute: pass 2, one arbitrary node of the tree ---------------- */
+static struct sum_node N, L, R; static struct final_sum FB, FI, FL;
+#define COVERS(f, a, z) ((f)->m_body.lo == (a) && (f)->m_body.hi == (z))
+#define PREFIX(f, z) (COVERS(f, 0, z) && (f)->m_body.init)          /* the body holds the caller's initial state and exactly the elements [0,z) */
+void h_scan_sum_execute(void) {
+    reset(); execution_data ed; ed.context = &g_tctx; g_self = &N;
+    mk_range(&N.m_range, 2); size_t p = N.m_range.b, q = N.m_range.e; __CPROVER_assume(p < g_mid && g_mid < q);
+    bool spine = nondet_bool();                 /* the node lies on the leftmost spine of the tree (nothing to its left) */
+    N.m_left = nondet_bool() ? &L : NULL; N.m_right = nondet_bool() ? &R : NULL; N.m_stuff_last = nondet_bool() ? &UB : NULL; N.m_wait_context = &g_wctx; N.ref_count = nondet_unsigned();
+    FB.m_parent = FI.m_parent = FL.m_parent = NULL; FB.m_wait_context = FI.m_wait_context = FL.m_wait_context = &g_wctx;
+    /* rely = what pass 1 leaves behind for a node that is kept (jobs scan.start_scan.*, scan.finish_scan.execute) and what the parent node hands down (this job, one level up):
+       spine:     no incoming; the left sum holds everything up to the cut, [0,mid); the left part either had its final pass in pass 1 or has a subtree of its own
+       elsewhere: incoming holds exactly [0,p); the body for the left part's final pass holds [0,p) too (it may be the same object); the left sum holds exactly the left part [p,mid);
+                  nothing right of the spine was final in pass 1 */
+    if (spine) { __CPROVER_assume(p == 0); N.m_incoming = NULL; N.m_body = &FB; FB.m_body.lo = 0; FB.m_body.hi = nondet_size_t(); FB.m_body.init = true;
+                 N.m_left_sum = (N.m_left == NULL && nondet_bool()) ? &FB : &FL;   /* the left sum is the spine body itself only if that body did the whole left part in pass 1 */
+                 N.m_left_sum->m_body.lo = 0; N.m_left_sum->m_body.hi = g_mid; N.m_left_sum->m_body.init = true; N.m_left_is_final = (N.m_left == NULL); }
+    else { __CPROVER_assume(p > 0); N.m_incoming = &FI; N.m_body = nondet_bool() ? &FI : &FB; FI.m_body.lo = FB.m_body.lo = 0; FI.m_body.hi = FB.m_body.hi = p; FI.m_body.init = FB.m_body.init = true; N.m_left_sum = &FL; FL.m_body.lo = p; FL.m_body.hi = g_mid; FL.m_body.init = false; N.m_left_is_final = false; }
+    VACUITY_CASE(spine && N.m_left_sum == &FB, "spine, left part final in pass 1"); VACUITY_CASE(spine && N.m_left != NULL, "spine, left subtree"); VACUITY_CASE(!spine && N.m_left == NULL && N.m_right == NULL, "inner node, two leaves");
+    VACUITY_CASE(!spine && N.m_left != NULL && N.m_right != NULL && N.m_body == &FI, "inner node, two subtrees");
+    struct final_sum *body0 = N.m_body, *incoming0 = N.m_incoming, *lsum = N.m_left_sum; bool lfinal = N.m_left_is_final;
+    task *ret = sum_node_execute(&N, &ed);
+    /* the right part: always gets its final pass in pass 2, with the left sum as body and incoming */
+    OBLIGATION(PREFIX(lsum, g_mid), "C06.scan: the body handed to the right part holds exactly the initial state and [0, cut): incoming prefix joined with the left part's sum, left operand first");
+    OBLIGATION(g_rsplits == 1 && N.m_range.b == p && N.m_range.e == g_mid, "C06.scan: the node's range is cut once; the left part is [begin, cut)");
+    if (N.m_right) OBLIGATION(R.m_body == lsum && R.m_incoming == lsum && R.m_stuff_last == N.m_stuff_last, "C06.scan: a right subtree is prepared with the left sum as its body and as its incoming prefix, and inherits the 'last subrange' slot");
+    else OBLIGATION(lsum->m_parent == &N && lsum->m_range.b == g_mid && lsum->m_range.e == q && lsum->m_stuff_last == N.m_stuff_last, "C06.scan: a right leaf covers exactly [cut, end), runs with the left sum as its body, and inherits the 'last subrange' slot");
+    /* the left part: gets a final pass in pass 2 exactly if it did not get one in pass 1 */
+    bool left_child = !lfinal;
+    if (lfinal) OBLIGATION(body0 == lsum || body0->m_parent == NULL, "C06.scan: a left part that had its final pass in pass 1 is not scanned again (no left leaf is set up)");
+    else if (N.m_left) OBLIGATION(L.m_body == body0 && L.m_incoming == incoming0 && L.m_stuff_last == NULL, "C06.scan: a left subtree is prepared with this node's body and this node's incoming prefix (it starts at the same element)");
+    else OBLIGATION(body0->m_parent == &N && body0->m_range.b == p && body0->m_range.e == g_mid && body0->m_stuff_last == NULL && PREFIX(body0, p) && body0 != lsum,
+                    "C06.scan: a left leaf covers exactly [begin, cut) and runs with a body that holds exactly [0, begin), distinct from the body of the right part");
+    OBLIGATION(N.ref_count == (unsigned)(1 + left_child), "C06.scan: the node waits for exactly the children it started");
+    OBLIGATION(N.m_body == NULL, "C06.scan: the node is marked so that its next execution (when the children are done) only finishes it");
+    void *rchild = N.m_right ? (void *)&R : (void *)lsum, *lchild = N.m_left ? (void *)&L : (void *)body0;
+    if (left_child) { OBLIGATION(g_spawns == 1 && g_spawned == rchild && (void *)ret == lchild, "C06.scan: both children are dispatched exactly once: the right one spawned, the left one run next");
+                      OBLIGATION(body0 != lsum, "C06.scan: two children that run concurrently never share a body"); }
+    else OBLIGATION(g_spawns == 0 && (void *)ret == rchild, "C06.scan: the only child is dispatched exactly once");
+    OBLIGATION(g_finals == 0 && g_prescans == 0 && g_deleted == 0, "C06.scan: the node itself scans nothing");
+    VACUITY_END();
+}
+void h_scan_sum_finish(void) {      /* second execution of a node (m_body == nullptr): all children done */
+    reset(); execution_data ed; ed.context = &g_tctx; g_self = &N; N.m_body = NULL; N.m_wait_context = &g_wctx;
+    static struct sum_node PP; if (nondet_bool()) { N.m_parent = &PP; mk_rc(&PP.ref_count); } else N.m_parent = NULL; struct sum_node *parent = N.m_parent;
+    task *ret = nondet_bool() ? sum_node_execute(&N, &ed) : sum_node_cancel(&N, &ed);
+    OBLIGATION(g_finals == 0 && g_prescans == 0 && g_rjoins == 0 && g_spawns == 0, "C06.scan: a node whose children are done (or that is cancelled) scans and joins nothing");
+    FINALIZE_POST(ret, parent);
+    VACUITY_END();
+}
+/* ---------------- finish_scan::execute: end of pass 1 for one arbitrary node (both children have finished) ---------------- */
+static struct finish_scan Q, QP; static struct final_sum Z, ZZ, LS; static struct final_sum *SLOTV; static struct sum_node *RS;
+void h_scan_finish_execute(void) {
+    reset(); execution_data ed; ed.context = &g_tctx; g_self = &Q;
+    mk_range(&N.m_range, 2); size_t p = N.m_range.b, q = N.m_range.e; __CPROVER_assume(p < g_mid && g_mid < q);
+    bool stolen = nondet_bool(), has_slot = nondet_bool(), lfin = nondet_bool();    /* right child was (really or virtually) stolen; somebody above wants this node's sum; the left part had its final pass */
+    size_t la = nondet_bool() ? 0 : p; __CPROVER_assume(!lfin || la == 0);
+    /* rely = what the two start_scan children leave behind (jobs scan.start_scan.*): the left child always reports its body in m_left_sum; a stolen right child works on a fresh zombie body
+       and (if a sum is wanted) the rightmost leaf below it reports a body that holds exactly the right part; a right child that was not stolen continued with the left child's body */
+    Q.m_result = &N; Q.m_sum_slot = has_slot ? &SLOTV : NULL; RS = NULL; Q.m_return_slot = &RS; Q.m_right_zombie = stolen ? &Z : NULL; Q.m_wait_context = &g_wctx;
+    N.m_left_sum = &LS; N.m_left = nondet_bool() ? &L : NULL; N.m_right = (stolen && nondet_bool()) ? &R : NULL; N.m_left_is_final = lfin;
+    bool right_scanned_by_left_body = !stolen && (lfin || has_slot);
+    LS.m_body.lo = la; LS.m_body.hi = right_scanned_by_left_body ? q : g_mid; LS.m_body.init = (la == 0);    /* a block that starts at element 0 belongs to the leftmost (final) sweep and carries the initial state */
+    SLOTV = NULL; if (has_slot) { if (stolen) { SLOTV = nondet_bool() ? &Z : &ZZ; SLOTV->m_body.lo = g_mid; SLOTV->m_body.hi = q; SLOTV->m_body.init = false; } else SLOTV = &LS; }
+    if (nondet_bool()) { Q.m_parent = &QP; mk_rc(&QP.ref_count); } else Q.m_parent = NULL; struct finish_scan *parent = Q.m_parent;
+    VACUITY_CASE(stolen && has_slot && N.m_right != NULL, "stolen right subtree, sum wanted"); VACUITY_CASE(!stolen && !has_slot && lfin, "left-to-right final run"); VACUITY_CASE(stolen && !has_slot && N.m_right == NULL, "stolen leaf, no sum wanted");
+    task *ret = finish_scan_execute(&Q, &ed);
+    if (has_slot) OBLIGATION(SLOTV != NULL && SLOTV->m_body.lo == la && SLOTV->m_body.hi == q && SLOTV->m_body.init == (la == 0), "C06.scan: the sum a node reports upward holds its WHOLE range (left part joined in front of the right part: left operand first), so that the total returned is the full reduction");
+    OBLIGATION(!stolen || RS == &N, "C06.scan: a node whose right part only got a pre-scan (stolen right child) is kept for pass 2 - that part still needs its final pass");
+    if (RS == &N) { OBLIGATION(g_node_destroyed == 0, "C06.scan: a node that is kept is not destroyed");
+                    OBLIGATION(N.m_left_sum->m_body.lo == la && N.m_left_sum->m_body.hi == g_mid, "C06.scan: in a kept node the left sum holds exactly the left part (or the whole prefix up to the cut): this is what pass 2 hands to the right part as incoming prefix"); }
+    else OBLIGATION(RS == NULL && g_node_destroyed == 1 && !stolen, "C06.scan: a node whose whole range was processed by one body in one sweep is dropped (exactly once): its range is not scanned again as two parts");
+    OBLIGATION(N.m_left_is_final == (lfin && N.m_left == NULL), "C06.scan: 'left part is final' is withdrawn exactly when the left part has a kept subtree (something in it still needs pass 2)");
+    OBLIGATION(g_zombie_destroyed == 0 || (g_zombie_destroyed == 1 && stolen && !has_slot && N.m_right == NULL && Q.m_right_zombie == NULL), "C06.scan: the right zombie body is destroyed only when nothing refers to it any more (no sum slot above, no right subtree)");
+    OBLIGATION(g_finals == 0 && g_prescans == 0, "C06.scan: the join task itself scans nothing");
+    FINALIZE_POST(ret, parent);
+    VACUITY_END();
+}
+
+/* ---------------- start_scan::execute: pass 1, one arbitrary task ---------------- */
+static struct start_scan ST; static struct final_sum OTHER;
+static void spawn_hook_start(void) {
+    OBLIGATION(g_spawned == (void *)&g_new_start && g_new_start.m_parent == &g_new_finish && g_new_finish.ref_count == 2 && g_new_finish.m_result == &g_new_node && g_new_start.m_is_right_child && g_new_start.m_return_slot == &g_new_node.m_right,
+               "C06.scan: when the right child becomes visible to thieves it is fully wired: under the new join task (count 2), marked as right child, returning its subtree into the node's right slot");
+}
+void h_scan_start_execute(void) {
+    reset(); execution_data ed; ed.context = &g_tctx; g_self = &ST; g_mode_spawn = 1;
+    mk_range(&ST.m_range, 1); size_t b = ST.m_range.b, e = ST.m_range.e;
+    bool rc = nondet_bool(), fin = nondet_bool(), has_slot = nondet_bool();
+    ST.m_is_right_child = rc; ST.m_is_final = fin; SLOTV = NULL; ST.m_sum_slot = has_slot ? &SLOTV : NULL; ST.m_body = &FB; RS = NULL; ST.m_return_slot = &RS; ST.m_wait_context = &g_wctx; FB.m_wait_context = &g_wctx;
+    if (rc || nondet_bool()) { ST.m_parent = &Q; mk_rc(&Q.ref_count); Q.m_result = &PN; Q.m_right_zombie = NULL; } else ST.m_parent = NULL; struct finish_scan *parent = ST.m_parent;
+    PN.m_left_sum = nondet_bool() ? &FB : (nondet_bool() ? &OTHER : NULL);
+    bool same = ST.m_parent != NULL && PN.m_left_sum == &FB;
+    /* rely: a task that is not a right child owns its body: it holds [0,b) if the task is final, and otherwise nothing or a block that ends at b.  A right child that runs un-stolen right after its
+       left sibling (same thread) and finds its own body in the parent node's left sum continues that body, which then ends at b.  A stolen right child knows nothing about the body: the left sibling may be using it */
+    FB.m_body.lo = nondet_size_t(); FB.m_body.hi = nondet_size_t(); FB.m_body.init = nondet_bool();
+    if (!rc || (!g_stolen && same)) { __CPROVER_assume(fin ? (FB.m_body.lo == 0 && FB.m_body.hi == b && FB.m_body.init) : (!FB.m_body.init && (FB.m_body.lo == FB.m_body.hi || FB.m_body.hi == b))); }
+    bool treat = rc && (g_stolen || !same);
+    VACUITY_CASE(treat && has_slot, "stolen right child, sum wanted"); VACUITY_CASE(rc && !treat && fin, "right child continues the final sweep"); VACUITY_CASE(!rc && fin, "left/root final");
+    task *ret = start_scan_execute(&ST, &ed);
+    struct final_sum *used = treat ? &g_new_final : &FB; bool fin2 = fin && !treat;
+    if (treat) { OBLIGATION(g_allocs_final == 1 && g_bsplits == 1 && g_bsplit_src == &FB.m_body && Q.m_right_zombie == &g_new_final && ST.m_body == &g_new_final,
+                            "C06.scan: a right child that is stolen, or whose body is not the one its left sibling finished with, switches to ONE fresh body split off its body and publishes it as the parent's right zombie");
+                 OBLIGATION(!ST.m_is_final || g_allocs_node == 0 && g_deleted == 1, "C06.scan: such a task is no longer final"); }
+    else OBLIGATION(g_allocs_final == 0 && g_bsplits == 0 && (ST.m_parent == NULL || Q.m_right_zombie == NULL || g_allocs_node == 1) && (g_deleted == 1 || ST.m_body == &FB), "C06.scan: any other task keeps its body and publishes no zombie");
+    if (g_deleted) {      /* the task processed its range as a leaf */
+        OBLIGATION(g_allocs_node == 0 && g_allocs_finish == 0 && g_allocs_start == 0 && g_spawns == 0, "C06.scan: a leaf creates no tree node");
+        OBLIGATION(g_finals == (fin2 ? 1 : 0) && g_prescans == ((!fin2 && has_slot) ? 1 : 0), "C06.scan: a pass-1 leaf runs the final pass exactly once if it is final (its prefix is known), else one pre-scan if a sum is wanted, else nothing - never both");
+        OBLIGATION(g_finals + g_prescans == 0 || (g_scan_body == &used->m_body && g_scan_range.b == b && g_scan_range.e == e), "C06.scan: the scan covers exactly the task's own subrange, with the task's (possibly fresh) body");
+        OBLIGATION(!has_slot || SLOTV == used, "C06.scan: the body that holds the subrange's sum is reported in the sum slot");
+        OBLIGATION(RS == NULL, "C06.scan: a leaf returns no subtree");
+        FINALIZE_POST(ret, parent);
+    } else {              /* the task split its range */
+        struct sum_node *NN = &g_new_node; struct finish_scan *QQ = &g_new_finish; struct start_scan *RC = &g_new_start;
+        OBLIGATION(!(rc && !treat), "C06.scan: a right child that continues its left sibling's body never splits (it must stay a leaf so that its body advances sequentially)");
+        OBLIGATION(g_allocs_node == 1 && g_allocs_finish == 1 && g_allocs_start == 1 && g_spawns == 1 && g_spawned == (void *)RC && (void *)ret == (void *)&ST, "C06.scan: a split creates one node, one join task and one right child; the right child is spawned once and this task continues as the left child");
+        OBLIGATION(NN->m_range.b == b && NN->m_range.e == e && NN->m_left_is_final == fin2 && NN->m_left == NULL && NN->m_right == NULL && NN->m_left_sum == NULL && NN->m_parent == (parent ? &PN : NULL),
+                   "C06.scan: the new node remembers the whole range, whether its left part gets its final pass now (= this task is final), and has empty child and sum slots");
+        OBLIGATION(QQ->m_return_slot == &RS && QQ->m_sum_slot == (has_slot ? &SLOTV : NULL) && QQ->m_result == NN && QQ->m_parent == parent && QQ->ref_count == 2 && QQ->m_right_zombie == NULL,
+                   "C06.scan: the join task takes over this task's return slot, sum slot and parent, and waits for two children");
+        OBLIGATION(ST.m_parent == QQ && ST.m_sum_slot == &NN->m_left_sum && ST.m_return_slot == &NN->m_left && !ST.m_is_right_child && ST.m_range.b == b && ST.m_range.e == g_mid && ST.m_body == used && ST.m_is_final == fin2,
+                   "C06.scan: this task becomes the LEFT child: left part of the range, reports its sum in the node's m_left_sum, returns its subtree in m_left, is no right child");
+        OBLIGATION(RC->m_parent == QQ && RC->m_sum_slot == (has_slot ? &SLOTV : NULL) && RC->m_return_slot == &NN->m_right && RC->m_is_right_child && RC->m_range.b == g_mid && RC->m_range.e == e && RC->m_body == used && RC->m_is_final == fin2,
+                   "C06.scan: the RIGHT child gets the right part of the range, provisionally the same body and finality, reports into the sum slot this task had (it holds the last subrange) and returns its subtree in m_right");
+        OBLIGATION(g_finals == 0 && g_prescans == 0 && (parent == NULL || g_mine) && g_wait_released == 0, "C06.scan: a splitting task scans nothing and does not yet report completion");
+    }
+    VACUITY_END();
+}
+void h_scan_cancels(void) {
+    reset(); execution_data ed; ed.context = &g_tctx; task *ret; bool which = nondet_bool();
+    if (which) { g_self = &ST; ST.m_wait_context = &g_wctx; if (nondet_bool()) { ST.m_parent = &Q; mk_rc(&Q.ref_count); } else ST.m_parent = NULL; struct finish_scan *parent = ST.m_parent; ret = start_scan_cancel(&ST, &ed); FINALIZE_POST(ret, parent); }
+    else { g_self = &Q; Q.m_wait_context = &g_wctx; if (nondet_bool()) { Q.m_parent = &QP; mk_rc(&QP.ref_count); } else Q.m_parent = NULL; struct finish_scan *parent = Q.m_parent; ret = finish_scan_cancel(&Q, &ed); FINALIZE_POST(ret, parent); }
+    OBLIGATION(g_finals == 0 && g_prescans == 0 && g_rjoins == 0 && g_spawns == 0, "C06.scan: cancelled pass-1 tasks scan and join nothing, but still report completion");
+    VACUITY_END();
+}
+void h_scan_run(void) {
+    reset(); g_waits = g_reserved = g_temp_deleted = 0; g_run_range.b = 0; g_run_range.e = nondet_size_t(); __CPROVER_assume(g_run_range.e <= NMAXS); g_user_body.lo = g_user_body.hi = 0; g_user_body.init = true; Partitioner part;
+    Range r = g_run_range;
+    start_scan_run(&r, &g_user_body, &part);
+    if (g_run_range.e == 0) OBLIGATION(g_waits == 0 && g_allocs_final == 0 && g_allocs_start == 0, "C06.scan.run: an empty range starts nothing");
+    else if (g_tree_kept) OBLIGATION(g_waits == 2 && g_reserved == 1 && g_temp_deleted == 0 && g_assigns == 0, "C06.scan.run: if pass 1 left a tree, pass 2 is run exactly once (the total is delivered by its last leaf)");
+    else { OBLIGATION(g_waits == 1 && g_temp_deleted == 1, "C06.scan.run: if pass 1 finished everything in one sweep there is no pass 2");
+           OBLIGATION(g_assigns == 1 && g_user_body.lo == 0 && g_user_body.hi == g_run_range.e && g_user_body.init, "C06.scan.run: the caller's body then receives the full reduction from the temporary body"); }
+    VACUITY_CASE(g_run_range.e != 0 && g_tree_kept, "two passes"); VACUITY_CASE(g_run_range.e != 0 && !g_tree_kept, "single sweep");
+    VACUITY_END();
+}
+#endif /* SCAN */
+
+#ifdef LSCAN
+/* parallel_scan.h lambda_scan_body: the adaptor behind the functional overloads; values are symbolic tokens, the user's functions record their operands IN ORDER */
+typedef long Value; typedef struct Range { int d; } Range; typedef struct Scan { int d; } Scan; typedef struct ReverseJoin { int d; } ReverseJoin;
+struct lambda_scan_body { Value m_sum_slot; const Value *identity_element; const Scan *m_scan; const ReverseJoin *m_reverse_join; };
+#define INIT_m_sum_slot_1(s, e) ((s)->m_sum_slot = (e))
+#define INIT_identity_element_1(s, e) ((s)->identity_element = &(e))
+#define INIT_m_scan_1(s, e) ((s)->m_scan = &(e))
+#define INIT_m_reverse_join_1(s, e) ((s)->m_reverse_join = &(e))
+static Scan g_scan; static ReverseJoin g_rj; static Value g_identity; int g_calls; const void *g_f, *g_range; Value g_op1, g_op2, g_out; bool g_tag;
+static Value invoke3_(const void *f, Value a, Value b) { g_calls++; g_f = f; g_op1 = a; g_op2 = b; g_out = nondet_long(); return g_out; }
+static Value invoke4_(const void *f, const void *r, Value v, bool tag) { g_calls++; g_f = f; g_range = r; g_op2 = v; g_tag = tag; g_out = nondet_long(); return g_out; }
+#define INVOKE3(f, a, b) invoke3_(&(f), (a), (b))
+#define INVOKE4(f, r, v, tag) invoke4_(&(f), &(r), (v), (tag))
+#include "lscan.inc"
+static void mk(struct lambda_scan_body *b) { b->identity_element = &g_identity; b->m_scan = &g_scan; b->m_reverse_join = &g_rj; b->m_sum_slot = nondet_long(); }
+void h_lscan(void) {
+    struct lambda_scan_body x, a, c; mk(&x); mk(&a); Value xv = x.m_sum_slot, av = a.m_sum_slot; g_calls = 0; g_identity = nondet_long();
+    lambda_scan_body_reverse_join(&x, &a);
+    OBLIGATION(g_calls == 1 && g_f == (const void *)&g_rj && g_op1 == av && g_op2 == xv && x.m_sum_slot == g_out,
+               "C06.lscan.reverse_join: the combine function is applied once to (the joined body's value, this body's value) - the body that lies to the LEFT is the left operand - and the result replaces this body's value");
+    Range r; bool tag = nondet_bool(); Value v0 = x.m_sum_slot; g_calls = 0;
+    lambda_scan_body_call(&x, &r, tag);
+    OBLIGATION(g_calls == 1 && g_f == (const void *)&g_scan && g_range == (const void *)&r && g_op2 == v0 && g_tag == tag && x.m_sum_slot == g_out,
+               "C06.lscan.call: the scan function is applied once to the subrange, the running value and the pass tag; its result becomes the running value");
+    lambda_scan_body_assign(&a, &x);
+    OBLIGATION(a.m_sum_slot == x.m_sum_slot, "C06.lscan.assign: assign copies the running value");
+    g_calls = 0; lambda_scan_body_split_ctor(&c, &x);
+    OBLIGATION(c.m_sum_slot == g_identity && c.identity_element == &g_identity && c.m_scan == &g_scan && c.m_reverse_join == &g_rj && g_calls == 0, "C06.lscan.split: a split-off body starts from the identity (not from a copy of the running value) and shares the functions");
+    lambda_scan_body_ctor(&c, &g_identity, &g_scan, &g_rj);
+    OBLIGATION(c.m_sum_slot == g_identity && c.identity_element == &g_identity && c.m_scan == &g_scan && c.m_reverse_join == &g_rj, "C06.lscan.ctor: a new body starts from the identity");
+    VACUITY_END();
+}
+#endif /* LSCAN */
